@@ -242,7 +242,7 @@ def gen_mutate(rng, profile):
     nh = 0
     nested_made = set()
     live = set()
-    if profile == "handles" and rng.random() < 0.3:
+    if profile == "handles" and rng.random() < 0.4:
         # a scripted opening: a match below a filter / rec / nested root (its parent is a bookkeeping match), the
         # container replaced through the parent Match or through the match itself, then writes / a nested search
         locs = [l for l in locations(doc) if len(l) >= 2]
@@ -258,10 +258,23 @@ def gen_mutate(rng, profile):
                           ["h.assign", 1, ["new", enc(newc)]],
                           rng.choice([["h.assign", 0, ["new", enc(rng.choice(VALS))]], ["h.pop", 0, ["none"]], ["h.del", 0]]),
                           ["h.data", 0]]
-            else:
+            elif variant < 0.8:
                 script = [["h.new", 0, par_steps + [filt], 0], ["h.assign", 0, ["new", enc(newc)]],
-                          ["h.nested", 1, 0, rng.choice([[last], [["gwc"]], []]), 0],
-                          rng.choice([["h.assign", 1, ["new", enc(rng.choice(VALS))]], ["h.pop", 1, ["none"]], ["h.del", 1]])]
+                          ["h.nested", 1, 0, rng.choice([[last], [["gwc"]], [], [last, ["par"]], [["gwc"], ["par"]], [last, ["par"], ["f", ["all", []]]]]), 0],
+                          rng.choice([["h.assign", 1, ["new", enc(rng.choice(VALS))]], ["h.pop", 1, ["none"]], ["h.del", 1], ["h.data", 1], ["h.data", 1]])]
+            else:
+                # a Match of a list item used as data source after an earlier item was removed through another Match: the
+                # search starts from the node the Match holds, not from what now sits at its old index
+                lists = [l for l in locations(doc) if isinstance(node_at(doc, l), list) and len(node_at(doc, l)) >= 2 and l]
+                if lists:
+                    ll = rng.choice(lists)
+                    lst = node_at(doc, ll)
+                    j = rng.randrange(1, len(lst))
+                    base = [["k", nm] if isinstance(nm, str) else ["i", nm] for nm in ll]
+                    inner = [["k", rng.choice(list(lst[j].keys()))]] if isinstance(lst[j], dict) and lst[j] else \
+                        ([["i", 0]] if isinstance(lst[j], list) and lst[j] else [["k", "a"]])
+                    script = [["h.new", 0, base + [["i", j]], 0], ["h.new", 1, base + [["i", rng.randrange(0, j)]], 0], ["h.pop", 1, ["none"]],
+                              ["h.mpop", 0, inner], ["h.data", 0]]
             live.update({0, 1})
             nh = 1
     prev_paths = []
@@ -281,13 +294,25 @@ def gen_mutate(rng, profile):
             elif r < 0.7:
                 op = [rng.choice(["set", "set_match"]), cascade_path(rng, shadow), gen_valspec(rng, shadow), True]
             elif r < 0.9:
-                op = [rng.choice(["get_sd", "get_sd", "get_sdc"]), cascade_path(rng, shadow),
+                cp = cascade_path(rng, shadow)
+                if rng.random() < 0.3:
+                    # the entry is there already — holding null / a falsy value as likely as not: nothing is stored
+                    locs = [l for l in locations(shadow) if l]
+                    falsy = [l for l in locs if not node_at(shadow, l)]
+                    if locs:
+                        loc = rng.choice(falsy if falsy and rng.random() < 0.7 else locs)
+                        cp = [["k", nm] if isinstance(nm, str) else ["i", nm] for nm in loc]
+                op = [rng.choice(["get_sd", "get_sd", "get_sdc"]), cp,
                       rng.choice([gen_valspec(rng, shadow), ["new", enc(rng.choice([[], {}, 0, None, "", False]))]])]
             else:
                 steps, _ = target_path(rng, shadow, fancy=0.0)
                 op = ["set", steps, gen_valspec(rng, shadow), True]
         elif profile == "pop":
-            if r < 0.12:
+            if r < 0.04:
+                # pop aimed at the node a Match stands for, the Match being the document root (reached in several ways)
+                op = ["mpop", rng.choice([[], [["f", ["all", []]]], [["rec"]], [["k", rng.choice(gen.KEYS)], ["par"]]]), 0,
+                      rng.choice([[], [["f", ["all", []]]], [["par"]]]), rng.choice(["match", "value"]), rng.random() < 0.5]
+            elif r < 0.12:
                 ms = gen_mset(rng, shadow, cascade=False)
                 op = ["mpop", ms[1], ms[2], ms[3], rng.choice(["match", "value"]), rng.random() < 0.5]
             elif r < 0.55:
@@ -322,7 +347,7 @@ def gen_mutate(rng, profile):
                 nh += 1
             else:
                 hid = rng.choice(sorted(live)) if live and rng.random() < 0.9 else rng.randint(0, 3)
-                k = rng.choice(["h.assign", "h.assign", "h.del", "h.pop", "h.pop", "h.data", "h.parent", "h.nested"])
+                k = rng.choice(["h.assign", "h.assign", "h.del", "h.pop", "h.pop", "h.data", "h.parent", "h.nested", "h.mpop"])
                 if k == "h.nested":
                     # a search from the Match behind a live handle (whose container may have been replaced through it)
                     nid = rng.randint(0, 3)
@@ -331,6 +356,8 @@ def gen_mutate(rng, profile):
                     steps = rng.choice([[], [["gwc"]], [["wc"]], [["iwc"]], [["k", rng.choice(gen.KEYS)]], [["i", rng.choice([0, -1])]],
                                         [["gwc"], ["f", ["all", []]]], [["f", ["all", []]]], [["k", "n"]]])
                     op = [k, nid, hid, steps, rng.randint(0, 1)]
+                elif k == "h.mpop":
+                    op = [k, hid, rng.choice([[["k", rng.choice(gen.KEYS)]], [["i", rng.choice([0, -1])]], [["gwc"]], [["par"], ["k", rng.choice(gen.KEYS)]]])]
                 elif k == "h.parent":
                     # the parent Match of a live handle: replacing a container through it redirects the child's writes
                     nid = rng.randint(0, 3)
